@@ -5498,7 +5498,7 @@ class CodegenCtx:
             size_str = self._generate_buflike_length_expr(intexpr.ref)
             if ProgramData.do(ProgramFlag.UNSAFE_STRING_INDEXING):
                 return text
-            if ProgramData.do(ProgramFlag.ALLOCATE_STR_SPACE_DYNAMIC_ON_DEMAND) and self._is_dynamic(intexpr.ref) and intexpr.ref.default_value is None:
+            if ProgramData.do(ProgramFlag.ALLOCATE_STR_SPACE_DYNAMIC_ON_DEMAND) and self._is_dynamic(intexpr.ref):
                 # the buffer might not have been allocated yet (or have been freed by delete)
                 return f"((state->c.{intexpr.ref.name} && ({index}) >= 0 && ({index}) < {size_str}) ? {text} : 0)"
             return f"((({index}) >= 0 && ({index}) < {size_str}) ? {text} : 0)"
@@ -5603,12 +5603,9 @@ class CodegenCtx:
         elif isinstance(action, SetToStr):
             assert action.into_storage.holds_a(OutputStorageType.STR)
             # Check if we need to allocate
-            if ProgramData.do(ProgramFlag.ALLOCATE_STR_SPACE_DYNAMIC_ON_DEMAND) and action.into_storage.default_value is None:  # if it wasn't None it'd be allocated in the start()
-                if is_start:
-                    # if we're at the start, and there's no default value, and on demand is in effect, there's no possible way for state->c to have any value other than NULL
-                    result.add(f"state->c.{action.into_storage.name} = malloc({action.into_storage.str_size});")
-                else:
-                    result.add(f"if (!state->c.{action.into_storage.name}) state->c.{action.into_storage.name} = malloc({action.into_storage.str_size});")
+            if ProgramData.do(ProgramFlag.ALLOCATE_STR_SPACE_DYNAMIC_ON_DEMAND):
+                # (even with a default value or in the start function the buffer may or may not exist: an earlier action can have allocated or freed it)
+                result.add(f"if (!state->c.{action.into_storage.name}) state->c.{action.into_storage.name} = malloc({action.into_storage.str_size});")
             if len(action.value_expr) > action.into_storage.effective_string_size():
                 raise IllegalDFAStateError("Literal is too long for output", action)
             result.add(self._generate_set_string(action.value_expr, action.into_storage))
@@ -5634,7 +5631,7 @@ class CodegenCtx:
             assert action.into_storage.holds_buflike()
             output_length_expr = self._generate_buflike_length_expr(action.into_storage)
             # Check if we need to allocate
-            if ProgramData.do(ProgramFlag.ALLOCATE_STR_SPACE_DYNAMIC_ON_DEMAND) and action.into_storage.default_value is None and self._is_dynamic(action.into_storage):  # if it wasn't None it'd be allocated in the start()
+            if ProgramData.do(ProgramFlag.ALLOCATE_STR_SPACE_DYNAMIC_ON_DEMAND) and self._is_dynamic(action.into_storage):  # (a default value is allocated in start(), but delete may have freed it since)
                 result.add(f"if (!state->c.{action.into_storage.name}) state->c.{action.into_storage.name} = malloc({output_length_expr});")
             # We treat the size given in by the user as including a terminating null (if requested, anyways)
             max_length_expr = self._generate_buflike_length_expr(action.into_storage, include_null=True)
